@@ -108,6 +108,14 @@ CLAIMS.update({
    ref="DESIGN.md section 4 C18, section 3 E5"),
 })
 
+CLAIMS.update({
+ "C19": dict(
+   technique="sibling / table rules over the writers' operator<< chains and mapper table, schedule and file-number rules (LF engine for floor(t/S)+1)",
+   text="Decides: in both statistics writers header and rows have the same fixed columns, each followed by the separator, range over the same mapper list (name vs extractor applied to the row's own cell) and end with exactly one newline (per header / per cell row), and the two writers agree; the columns cell_id, type_id, area, volume, target_volume, pressure come from the getter of that quantity and each getter returns the field of that name; statistics are written under iteration_ % 50 == 0 and once after the run loop, iteration_ is incremented exactly once per iteration; save_mesh computes floor(t/S)+1, writes only on change after storing the number, builds the cell-data and face-data paths from that same stored number, hands over the current population, and is the first action of every iteration.",
+   note="K within one of T/S+1 depends on floating-point accumulation of the simulated time and is not decided; neither is parseability of the written files (see C16).",
+   ref="DESIGN.md section 4 C19"),
+})
+
 NA_DEFAULT = "checker not finished yet (see DESIGN.md section 4 for the planned clauses)"
 NA = {}
 
